@@ -34,7 +34,7 @@ WORLD_INFO = {'real': ['TokenAwarePolicy.make_query_plan, Metadata.get_replicas,
 ASSUMPTIONS = ['ring membership is static during a run (C42 covers token-map refresh); only host state changes',
                'with several LOCAL datacenters under NetworkTopologyStrategy the order is checked per datacenter']
 REQUIRED_PROBES = ['local_replica_prefix', 'replica_down_but_in_child_plan', 'remote_replica', 'shuffled_plan', 'nts_keyspace', 'rf_exceeds_nodes',
-                   'plan_between_state_steps', 'keyspace_without_replica_map', 'legacy_partitioner']
+                   'plan_between_state_steps', 'keyspace_without_replica_map', 'legacy_partitioner', 'late_keyspace_plan_defined', 'late_keyspace_plan_undefined']
 
 LOCAL, REMOTE, IGNORED = 0, 1, -1
 
@@ -118,6 +118,26 @@ def gen_plan(rng, tier):
             else:
                 ops += [{'op': 'policy_up', 'node': i}] + mid + [{'op': 'set_up', 'node': i}]
                 state[i] = 'up'
+        if rng.random() < 0.4:
+            # a keyspace whose definition reaches the metadata only later (created by another client), is altered and dropped:
+            # plans taken before, between and after must follow the metadata of the moment
+            late = {'class': 'org.apache.cassandra.locator.SimpleStrategy', 'replication_factor': str(rng.randrange(1, n + 1))}
+            alt = {'class': 'org.apache.cassandra.locator.SimpleStrategy', 'replication_factor': str(rng.randrange(1, n + 1))}
+            seq = [{'op': 'plan', 'key': rng.randrange(len(keys)), 'ks': 'ks_late', 'via': 'statement'},
+                   {'op': 'ks_define', 'ks': 'ks_late', 'repl': late},
+                   {'op': 'plan', 'key': rng.randrange(len(keys)), 'ks': 'ks_late', 'via': rng.choice(['statement', 'working'])},
+                   {'op': 'plan', 'key': rng.randrange(len(keys)), 'ks': 'ks_late', 'via': 'statement'}]
+            if rng.random() < 0.6:
+                seq += [{'op': 'ks_define', 'ks': 'ks_late', 'repl': alt},
+                        {'op': 'plan', 'key': rng.randrange(len(keys)), 'ks': 'ks_late', 'via': 'statement'}]
+            if rng.random() < 0.4:
+                seq += [{'op': 'ks_drop', 'ks': 'ks_late'}, {'op': 'plan', 'key': rng.randrange(len(keys)), 'ks': 'ks_late', 'via': 'statement'},
+                        {'op': 'ks_define', 'ks': 'ks_late', 'repl': late},
+                        {'op': 'plan', 'key': rng.randrange(len(keys)), 'ks': 'ks_late', 'via': 'statement'}]
+            # spread the sequence over the other operations, order kept
+            pos = sorted(rng.randrange(len(ops) + 1) for _ in seq)
+            for off, (at, item) in enumerate(zip(pos, seq)):
+                ops.insert(at + off, item)
     else:
         t = 0.3
         for _ in range(rng.choice([1, 2, 4, 6])):
@@ -170,6 +190,7 @@ class Taker(object):
         self.nplans = 0
         self.nontrivial = False
         self.ver = [0]             # bumped by every host-state or policy-membership change (ABA-safe "nothing moved" test)
+        self.ks_now = dict(plan['cluster']['keyspaces'])      # keyspace definitions the metadata holds at this moment
 
     def watch(self, cpool, cpol):
         ver = self.ver
@@ -216,7 +237,9 @@ class Taker(object):
             return                     # host state moved while the plan was being built (or another thread's call interleaved): not judged further
         C = mine[0]
         up = before
-        repl = plan['cluster']['keyspaces'].get(ks) if ks else None
+        repl = self.ks_now.get(ks) if ks else None
+        if ks == 'ks_late':
+            sim.probe('late_keyspace_plan_' + ('defined' if repl else 'undefined'))
         if repl is None:
             V.check('C22/passthrough')
             if P != C:
@@ -334,6 +357,20 @@ def run_direct(plan, seed, choices):
             k = op['op']
             if k == 'plan':
                 taker.take(ta, child, child_plans, op, 'op%d' % oi)
+                continue
+            if k == 'ks_define':
+                # the path a schema refresh takes: Metadata._update_keyspace -> _keyspace_added/_keyspace_updated -> TokenMap.rebuild_keyspace
+                taker.ver[0] += 1
+                repl = op['repl']
+                md._update_keyspace(cmeta.KeyspaceMetadata(op['ks'], True, repl['class'], dict((a, b) for a, b in repl.items() if a != 'class')))
+                taker.ks_now[op['ks']] = repl
+                taker.ver[0] += 1
+                continue
+            if k == 'ks_drop':
+                taker.ver[0] += 1
+                md._drop_keyspace(op['ks'])
+                taker.ks_now.pop(op['ks'], None)
+                taker.ver[0] += 1
                 continue
             gate.set()
             h = hosts[op['node']]
